@@ -1,5 +1,6 @@
 import H264.AnnexBSpec
 import H264.AnnexBOps
+import H264.ByteProof
 /-! # C01 — Annex B NAL framing is invariant under push chunking and matches start codes
 
 Model: `AnnexB.push` / `AnnexB.reset` mirror `AnnexBReader::push` / `reset` at call level (index loop,
@@ -47,5 +48,11 @@ theorem ops_is_segmentation (ops : List Op) : events (runOps St.start ops).2 = s
 example : outside [0,0,0,1,0x67,0,0,3,0,0,1,0x68,0] =
     [.byte 0x67, .byte 0, .byte 0, .byte 3, .endUnit, .byte 0x68, .byte 0, .endUnit] := by
   simp [outside, inside]
+
+/-- **call-level model = real code on a complete small domain, by proof**: every string of length 0…5 over {00, 01, 03, a5}
+pushed in two pieces cut at every position, then reset (6 461 runs): the model's `push` / `reset` deliver exactly the bytes
+and end markers the real `AnnexBReader` delivered in this run's graph -/
+theorem model_reader_reproduces_code :
+    (ByteProof.words [0x00, 0x01, 0x03, 0xa5]).map ByteProof.annexbRow = Generated.annexbRows := ByteProof.annexb_model_eq_code
 
 end C01
